@@ -247,6 +247,9 @@ func cloneCmd(c database.Command) database.Command {
 }
 
 func eGenQuery(r *rand.Rand, cmds []database.Command) string {
+	if r.Intn(4) == 0 {
+		return harvestedQuery(r, r.Intn(1<<20))
+	}
 	switch x := r.Intn(100); {
 	case x < 4:
 		return []string{"", " ", "a", "!", "??", "the of", "-", "é"}[r.Intn(8)]
@@ -395,4 +398,83 @@ func marshalCommands(cmds []database.Command) ([]byte, error) {
 		return []byte("[]\n"), nil
 	}
 	return yaml.Marshal(cmds)
+}
+
+// ---------------------------------------------------------------- planted scenarios
+// Structured situations that uniform generation reaches too rarely. Each returns a database, a query and options.
+
+func eScenario(r *rand.Rand) ([]database.Command, string, eOpts) {
+	o := eOpts{}
+	switch r.Intn(3) {
+	case 0:
+		// typo fallback under a restrictive filter: many ineligible entries match the typo better (shorter text)
+		// than the few eligible ones, and the limit is small
+		stem := []string{"diskpart", "compress", "network", "docker", "archive"}[r.Intn(5)]
+		var cmds []database.Command
+		bad := 3 + r.Intn(5)
+		for i := 0; i < bad; i++ {
+			cmds = append(cmds, database.Command{Command: stem + []string{"", "x", "mgr", ".msc", " /f"}[r.Intn(5)], Description: "short",
+				Platform: []string{"windows"}, Pipeline: false})
+		}
+		good := 1 + r.Intn(2)
+		for i := 0; i < good; i++ {
+			cmds = append(cmds, database.Command{Command: "lsblk --" + stem + " --output name,size", Description: "list " + stem + " devices and block devices in a tree with sizes",
+				Platform: []string{"linux"}, Pipeline: i == 0})
+		}
+		r.Shuffle(len(cmds), func(i, j int) { cmds[i], cmds[j] = cmds[j], cmds[i] })
+		b := []byte(stem)
+		k := 1 + r.Intn(len(b)-2)
+		q := string(append(append([]byte{}, b[:k]...), b[k+1:]...)) // one inner letter dropped: no lexical hit
+		o.Limit = []int{1, 1, 2, 3}[r.Intn(4)]
+		o.Fuzzy = true
+		o.NLP = r.Intn(2) == 0
+		o.Threshold = []int{0, 0, -500}[r.Intn(3)]
+		switch r.Intn(3) {
+		case 0:
+			o.Platforms, o.NoCross = intsList([]string{"linux"}), true
+		case 1:
+			o.Platforms = intsList([]string{"linux"})
+		case 2:
+			o.PipelineOnly = true
+		}
+		return cmds, q, o
+	case 1:
+		// long entries and a typo: raw matcher scores far below -100 (no threshold, or a very low one)
+		var cmds []database.Command
+		for i, n := 0, 2+r.Intn(4); i < n; i++ {
+			c := eGenCommand(r)
+			c.Command = "compress-archive " + c.Command
+			c.Description = strings.Repeat("creates a compressed archive of the given files and folders ", 2+r.Intn(4)) + c.Description
+			cmds = append(cmds, c)
+		}
+		o.Limit = []int{0, 3, 10}[r.Intn(3)]
+		o.Fuzzy = true
+		o.Threshold = []int{0, -500, -1000}[r.Intn(3)]
+		o.AllPlatforms = true
+		return cmds, []string{"comprss", "archve", "cmprs arch"}[r.Intn(3)], o
+	default:
+		// several query words shared with entries that tie exactly (same text up to characters that do not tokenize)
+		words := []string{}
+		for len(words) < 4+r.Intn(4) {
+			words = append(words, ePlain[r.Intn(len(ePlain)-4)])
+		}
+		var cmds []database.Command
+		base := database.Command{Command: "qm " + strings.Join(words[:2], " "), Description: strings.Join(words, " ") + " of a virtual machine",
+			Keywords: append([]string(nil), words[:3]...)}
+		for i, n := 0, 2+r.Intn(3); i < n; i++ {
+			d := cloneCmd(base)
+			d.Command = base.Command + strings.Repeat(" -", i)
+			d.Niche = []string{"", "backup", "sysadmin"}[i%3]
+			cmds = append(cmds, d)
+		}
+		for i, n := 0, r.Intn(6); i < n; i++ {
+			cmds = append(cmds, eGenCommand(r))
+		}
+		r.Shuffle(len(cmds), func(i, j int) { cmds[i], cmds[j] = cmds[j], cmds[i] })
+		o.Limit = []int{1, 1, 2, 0}[r.Intn(4)]
+		o.NLP = r.Intn(4) != 0
+		o.AllPlatforms = true
+		r.Shuffle(len(words), func(i, j int) { words[i], words[j] = words[j], words[i] })
+		return cmds, strings.Join(words, " "), o
+	}
 }
